@@ -47,6 +47,36 @@ func decodeAll(format string, data []byte, dictCap int) ([]byte, error) {
 	return io.ReadAll(r)
 }
 
+// priorDecode uses a reader of the same format and configuration in the same
+// process before the decode under judgement: on a truncated copy of the stream
+// (trunc), on a copy with one byte changed (flip), or on the intact stream but
+// abandoned after a first Read (abandon). at is a position in per mille. What
+// the earlier instance returns is not judged here; a later instance must not
+// be influenced by it (instances share no state a caller can see).
+func priorDecode(format string, stream []byte, dictCap int, kind string, at int) {
+	defer func() { recover() }()
+	if len(stream) == 0 {
+		return
+	}
+	pos := int(int64(len(stream)) * int64(at) / 1000)
+	if pos >= len(stream) {
+		pos = len(stream) - 1
+	}
+	switch kind {
+	case "trunc":
+		decodeAll(format, stream[:pos], dictCap)
+	case "flip":
+		c := append([]byte{}, stream...)
+		c[pos] ^= 0x20
+		decodeAll(format, c, dictCap)
+	case "abandon":
+		r, err := openReader(format, bytes.NewReader(stream), dictCap)
+		if err == nil {
+			r.Read(make([]byte, 1+at%300))
+		}
+	}
+}
+
 // layoutOf parses a valid stream of any of the three formats into a layout
 // whose spans cover it completely.
 func layoutOf(format string, b *gen.Built) (*ref.Layout, error) {
